@@ -183,7 +183,7 @@ def r_scan_deep(repo, rep, R='R6.3'):
             st.data['rec'].append(t[2])
             return ('sym', 'next-free-index', k)
         return None
-    leaf_ok = fun_ok = False
+    leaf_ok = fun_ok = None
     detail = []
     for st, o in SymExec(sd, on_call=on_call, init_env={sd.name: ('func', sd.name, id(sd))}).run():
         conds = [(c, pol) for c, pol, _ in st.conds]
@@ -193,15 +193,15 @@ def r_scan_deep(repo, rep, R='R6.3'):
             ok = len(recs) == 2 and recs[0][0] == A(N(s), 'left') and recs[0][2] == N(idx) and recs[1][0] == A(N(s), 'right') and \
                 recs[1][2] == ('sym', 'next-free-index', 0) and st.ret == ('sym', 'next-free-index', 1) and \
                 all(r[1] == N(v) and r[3] == N(res) for r in recs)
-            fun_ok = ok
+            fun_ok = ok if fun_ok is None else (fun_ok and ok)
             detail.append('functor: %s -> %s' % ([show(r[2]) for r in recs], show(st.ret) if st.ret else None))
         else:
             sets = [(e[2], e[3]) for e in st.events if e[0] == 'setitem' and e[1] == N(res)]
             ok = len(sets) == 1 and str_parts(sets[0][0]) == [N(v), N(idx)] and sets[0][1] == A(N(s), 'feature') and \
                 st.ret in (('binop', '+', N(idx), C(1)), ('binop', '+', C(1), N(idx))) and not recs
-            leaf_ok = ok
+            leaf_ok = ok if leaf_ok is None else (leaf_ok and ok)
             detail.append('leaf: %s -> %s' % ([(show(a), show(b)) for a, b in sets], show(st.ret) if st.ret else None))
-    rep.check(leaf_ok and fun_ok, R, w, 'scan_deep:leaf-numbering',
+    rep.check(bool(leaf_ok) and bool(fun_ok), R, w, 'scan_deep:leaf-numbering',
               'every leaf gets the next free index and the right side continues where the left side stopped (%s)' % '; '.join(detail),
               'the leaves under a variable are not numbered consecutively left to right, so features at corresponding positions are not the ones compared: %s' % '; '.join(detail))
     # started at 0 with the input, the variable name and the feature table of the side being scanned
